@@ -175,7 +175,11 @@ claim("C03",
       "at the value of the requested address expression, or at the location counter rounded up to the start alignment and the alignment of its "
       "contents; the noload part lies behind it; the VRAM end symbol is the location counter behind the noload part rounded up to the end alignment. "
       "Props/C03Hex.lean: parseHex_toHex8 / operand_fixed_vram / fixed_vram_request (the 0x%08X literal of fixed_vram evaluates to the value it was "
-      "printed from, for every number)." + IMG,
+      "printed from, for every number). Props/C03Final.lean, final_fixed_vram: in the image Ld.link returns for the whole ordinary script of a "
+      "document (multi-segment mode, emitted segments with an allocatable section, any options, object table and --defsym table) every emitted "
+      "segment with fixed_vram v has an output section .<segment> at address v - provided neither the script nor the --defsym table defines a "
+      "symbol spelled like the literal (assignCount = 0, decidable; passes_none / carry_none carry 'nobody has assigned it' through every "
+      "evaluation of the script)." + IMG,
       "Lean 4 proofs of the emitted address statements + real-link oracle for their meaning", "DESIGN.md §8 C03")
 claim("C04",
       "Lean theorems (Props/C04.lean): sections_rom — in every multi-segment script the statements touching __romPos together with all output "
